@@ -708,9 +708,13 @@ def c15(ctx):
         log("[C15] Pipeline.tla (multi-call) does not hold with the live constants")
     d = ctx.dir("reuse")
     t = os.path.join(d, "reuse.ndjson")
-    ctx.vh(["v-pipe", "-family", "reuse", "-n", "2" if q else "3", "-maxhist", "0" if q else "1200", "-trace", t,
+    ctx.vh(["v-pipe", "-family", "reuse", "-n", "2" if q else "3", "-maxhist", "0" if q else "1500", "-trace", t,
             "-seed", str(ctx.seed), "-property", "C15"], timeout=7200)
     pipeline_trace_validate(ctx, c, t, "C15")
+    if q:   # a sample of the histories of three calls (what a failing call leaves behind shows in the call after it)
+        t3 = os.path.join(d, "reuse3.ndjson")
+        ctx.vh(["v-pipe", "-family", "reuse", "-n", "3", "-maxhist", "700", "-trace", t3, "-seed", str(ctx.seed), "-property", "C15"], timeout=7200)
+        pipeline_trace_validate(ctx, c, t3, "C15")
     ctx.vh(["v-serhist", "-seed", str(ctx.seed), "-len", "2", "-sample", "20000" if q else "300000", "-property", "C15"], timeout=3000)
     if not m["ok"] and not ctx.mismatches:
         raise Infra("Pipeline.tla (multi-call) fails with the live constants but no history misbehaved on the real code:\n%s" % m["out"][-2500:])
